@@ -675,7 +675,21 @@ impl Expression {
                         'b' => '\x08',
                         'f' => '\x0C',
                         'v' => '\x0B',
-                        '0' => '\0',
+                        '0'..='7' => {
+                            // a legacy octal escape: up to three digits (two when the first is above 3)
+                            let mut v = next as u32 - '0' as u32;
+                            let max_len = if v <= 3 { 3 } else { 2 };
+                            for _ in 1..max_len {
+                                match ps.peek::<0>() {
+                                    Some(d) if ('0'..='7').contains(&d) => {
+                                        ps.next();
+                                        v = v * 8 + (d as u32 - '0' as u32);
+                                    }
+                                    _ => break,
+                                }
+                            }
+                            char::from_u32(v).unwrap_or('\0')
+                        }
                         // a backslash before a line terminator continues the line
                         '\n' | '\u{2028}' | '\u{2029}' => continue,
                         '\r' => {
